@@ -17,13 +17,52 @@ def norm(node) -> str:
     return ast.unparse(node)
 
 
+class _TypeMatchDesugar(ast.NodeTransformer):
+    """`match x: case A(): ... case B() if g: ... case _: ...` (class patterns without sub-patterns only) is
+    read as the `if isinstance(x, A): ... elif isinstance(x, B) and g: ... else: ...` chain it abbreviates, so
+    that every rule written for the if-form covers the match-form; positions are kept.  Matches with value,
+    sequence or capture patterns are left as they are (rules that know them handle them)."""
+
+    def visit_Match(self, node):
+        self.generic_visit(node)
+        if not isinstance(node.subject, ast.Name):
+            return node
+        tests = []
+        for i, c in enumerate(node.cases):
+            pat = c.pattern
+            if isinstance(pat, ast.MatchClass) and not pat.patterns and not pat.kwd_patterns:
+                t = ast.Call(func=ast.Name(id="isinstance", ctx=ast.Load()), args=[ast.Name(id=node.subject.id, ctx=ast.Load()), pat.cls], keywords=[])
+                if c.guard is not None:
+                    t = ast.BoolOp(op=ast.And(), values=[t, c.guard])
+                tests.append(t)
+            elif isinstance(pat, ast.MatchAs) and pat.pattern is None and pat.name is None and c.guard is None and i == len(node.cases) - 1:
+                tests.append(None)
+            else:
+                return node
+        if not tests or tests[0] is None:
+            return node
+        chain = None
+        for t, c in reversed(list(zip(tests, node.cases))):
+            if t is None:
+                chain = list(c.body)
+                continue
+            new = ast.If(test=t, body=list(c.body), orelse=chain if isinstance(chain, list) else ([chain] if chain is not None else []))
+            ast.copy_location(new, c.pattern)
+            for x in ast.walk(t):
+                if not hasattr(x, "lineno"):
+                    ast.copy_location(x, c.pattern)
+            chain = new
+        ast.copy_location(chain, node)
+        return ast.fix_missing_locations(chain)
+
+
 class Module:
     def __init__(self, repo, rel):
         self.repo = repo
         self.rel = rel  # path relative to src/_gettsim, posix
         self.path = repo.pkg / rel
         self.src = self.path.read_text(encoding="utf-8")
-        self.tree = ast.parse(self.src)
+        self.tree = _TypeMatchDesugar().visit(ast.parse(self.src))
         self.modname = "_gettsim." + rel[:-3].replace("/", ".")
         self.functions: dict[str, ast.FunctionDef] = {}
         self.dup_functions: list[tuple[str, int, int]] = []
@@ -177,7 +216,13 @@ class Repo:
         try:
             return ast.literal_eval(v)
         except Exception as e:  # noqa: BLE001
-            raise AnalysisError(f"config.{name} is not a literal: {e}") from e
+            # built from other module-level literals (comprehension, f-string, ...): constant folding
+            from .minieval import Unsupported, fold_module_value
+
+            try:
+                return fold_module_value(self, m, v)
+            except (Unsupported, KeyError, TypeError, IndexError, RecursionError) as e2:
+                raise AnalysisError(f"config.{name} is not a literal and cannot be folded: {e}; {e2!r}") from e
 
     @functools.cached_property
     def groupings(self) -> list[str]:
